@@ -361,11 +361,37 @@ Lemma final_ts_no_key x e index dec now0 tsNow clock :
 Proof. intros H. unfold final_ts, index_req_ts, extract_ts. rewrite H. reflexivity. Qed.
 
 Lemma final_ts_num x e index dec now0 tsNow clock z :
-  lookup (index_ts_key index) e = Some (SInt z) -> num_ts_ms z <> 0 ->
+  lookup (index_ts_key index) e = Some (SInt z) -> in_int64 z = true -> num_ts_ms z <> 0 ->
   final_ts x e index dec now0 tsNow clock = num_ts_ms z.
 Proof.
-  intros H Hz. unfold final_ts, index_req_ts, extract_ts. rewrite H.
+  intros H Hi Hz. unfold final_ts, index_req_ts, extract_ts, int_lit_ts. rewrite H, Hi.
   destruct (N.eqb_spec (num_ts_ms z) 0); [contradiction|reflexivity].
+Qed.
+
+(* a number spelled with a fraction or an exponent goes through the float reader *)
+Lemma final_ts_dec x e index dec now0 tsNow clock m ex :
+  lookup (index_ts_key index) e = Some (SDec m ex) -> flt_ts_ms (dec_u64 m ex) <> 0 ->
+  final_ts x e index dec now0 tsNow clock = flt_ts_ms (dec_u64 m ex).
+Proof.
+  intros H Hz. unfold final_ts, index_req_ts, extract_ts. rewrite H.
+  destruct (N.eqb_spec (flt_ts_ms (dec_u64 m ex)) 0); [contradiction|reflexivity].
+Qed.
+
+Lemma final_ts_bigint x e index dec now0 tsNow clock z :
+  lookup (index_ts_key index) e = Some (SInt z) -> in_int64 z = false -> flt_ts_ms (dec_u64 z 0) <> 0 ->
+  final_ts x e index dec now0 tsNow clock = flt_ts_ms (dec_u64 z 0).
+Proof.
+  intros H Hi Hz. unfold final_ts, index_req_ts, extract_ts, int_lit_ts. rewrite H, Hi.
+  destruct (N.eqb_spec (flt_ts_ms (dec_u64 z 0)) 0); [contradiction|reflexivity].
+Qed.
+
+(* the unit step on the value a reader returned: the instant of its class, never 0 for t > 0 *)
+Lemma flt_ts_by_class t : 0 < t -> t < 18446744073709551616 ->
+  flt_ts_ms t = instant_ms (num_unit_class t) t /\ flt_ts_ms t <> 0.
+Proof.
+  intros H0 H1. unfold flt_ts_ms, num_unit_class. destruct (is_time_in_milli t) eqn:E; unfold instant_ms.
+  - split; [reflexivity|lia].
+  - unfold is_time_in_milli, MILLI_T in E. rewrite wrap64_small by lia. split; [reflexivity|lia].
 Qed.
 
 Lemma final_ts_str x e index dec now0 tsNow clock s v :
@@ -409,6 +435,12 @@ Qed.
 
 (* ================= 4. Elasticsearch bulk / doc ================= *)
 
+Lemma in_range_num_int64 u v : in_range_num u v = true -> in_int64 (Z.of_N v) = true.
+Proof.
+  unfold in_int64. destruct u; cbn [in_range_num]; intros H; try discriminate;
+  apply andb_true_iff in H as [H1 H2]; unfold MILLI_T in *; lia.
+Qed.
+
 Theorem es_time_num x u v attrs index dec now0 tsNow clock :
   plain_index index -> in_range_num u v = true ->
   final_ts x (es_build (WNum (Z.of_N v)) attrs) index dec now0 tsNow clock = instant_ms u v.
@@ -418,7 +450,67 @@ Proof.
   - exact E.
   - rewrite (index_ts_key_plain index Hi). unfold es_build, ts_field. cbn [app lookup].
     rewrite bytes_eqb_refl. reflexivity.
+  - apply (in_range_num_int64 u v Hr).
   - rewrite E. exact Hnz.
+Qed.
+
+(* ANY numeric spelling: fraction, exponent, or an integer literal beyond int64.  With t the
+   value the float reader returns (uint64 of the nearest float64), the stored time is the
+   instant of t's unit class -- it does not depend on the arrival time *)
+Theorem es_time_dec x m ex attrs index dec now0 tsNow clock :
+  plain_index index -> 0 < dec_u64 m ex -> dec_u64 m ex < 18446744073709551616 ->
+  final_ts x (es_build (WDec m ex) attrs) index dec now0 tsNow clock =
+  instant_ms (num_unit_class (dec_u64 m ex)) (dec_u64 m ex).
+Proof.
+  intros Hi H0 H1. destruct (flt_ts_by_class _ H0 H1) as [E Hnz].
+  rewrite (final_ts_dec x _ index dec now0 tsNow clock m ex).
+  - exact E.
+  - rewrite (index_ts_key_plain index Hi). unfold es_build, ts_field. cbn [app lookup].
+    rewrite bytes_eqb_refl. reflexivity.
+  - exact Hnz.
+Qed.
+
+Theorem es_time_bigint x z attrs index dec now0 tsNow clock :
+  plain_index index -> in_int64 z = false -> 0 < dec_u64 z 0 -> dec_u64 z 0 < 18446744073709551616 ->
+  final_ts x (es_build (WNum z) attrs) index dec now0 tsNow clock =
+  instant_ms (num_unit_class (dec_u64 z 0)) (dec_u64 z 0).
+Proof.
+  intros Hi Hz H0 H1. destruct (flt_ts_by_class _ H0 H1) as [E Hnz].
+  rewrite (final_ts_bigint x _ index dec now0 tsNow clock z).
+  - exact E.
+  - rewrite (index_ts_key_plain index Hi). unfold es_build, ts_field. cbn [app lookup].
+    rewrite bytes_eqb_refl. reflexivity.
+  - exact Hz.
+  - exact Hnz.
+Qed.
+
+(* what the float reader returns for some spellings of 2024-04-29T01:01:30.251Z and others *)
+Lemma dec_u64_values :
+  dec_u64 1714352490251 (-3) = 1714352490 /\              (* 1714352490.251     seconds, fraction cut *)
+  dec_u64 1714352490251 0 = 1714352490251 /\              (* 1.714352490251e12  milliseconds *)
+  dec_u64 17143524902515 (-1) = 1714352490251 /\          (* 1714352490251.5 *)
+  dec_u64 1714352490 0 = 1714352490 /\                    (* 1.71435249e9 *)
+  dec_u64 17143524909999999999 (-10) = 1714352491 /\      (* 1714352490.9999999999 is the double 1714352491 *)
+  dec_u64 9223372036854775808 0 = 9223372036854775808 /\  (* 2^63, beyond int64 *)
+  dec_u64 9223372036854775809 0 = 9223372036854775808 /\
+  dec_u64 9007199254740993 0 = 9007199254740992.
+Proof. repeat split; vm_compute; reflexivity. Qed.
+
+(* the instant a fractional-seconds number denotes is NOT what is stored: the fraction is cut *)
+Theorem es_fractional_seconds_refuted : exists m ex,
+  dec_true_ms m ex = 1714352490251 /\
+  instant_ms (num_unit_class (dec_u64 m ex)) (dec_u64 m ex) = 1714352490000.
+Proof. exists 1714352490251%Z, (-3)%Z. split; vm_compute; reflexivity. Qed.
+
+(* guarded: when the float reader returns the exact integer part and the number is in the
+   millisecond class (or has no fraction), the stored time is the denoted instant *)
+Theorem es_time_dec_exact_guarded m ex :
+  dec_u64 m ex = dec_floor m ex -> (is_time_in_milli (dec_floor m ex) = true \/ dec_floor m (ex + 3) = dec_floor m ex * 1000) ->
+  instant_ms (num_unit_class (dec_u64 m ex)) (dec_u64 m ex) = dec_true_ms m ex.
+Proof.
+  intros E H. rewrite E. unfold dec_true_ms, num_unit_class.
+  destruct (is_time_in_milli (dec_floor m ex)) eqn:C; cbn [instant_ms]; [reflexivity|].
+  destruct H as [H|H]; [discriminate|]. rewrite H. reflexivity.
 Qed.
 
 Theorem es_time_str x u s v attrs index dec now0 tsNow clock :
